@@ -283,6 +283,22 @@ func vScenarioC05(rc *runCtx) {
 				verifsim.Sleep(20 * time.Millisecond)
 				continue
 			}
+			if fo.DetectDragFile && strings.HasPrefix(existing, "/") && !strings.Contains(existing, "'") && tp.Bool("c05.dragthentype", 80) {
+				// files dropped on the terminal, and the user types on within the 300 ms the filter waits before it
+				// acts on a drop: the drop is given up (its path text is the statement's exception and is not
+				// forwarded), nothing is typed into the remote shell on the user's behalf, what the user types arrives
+				kinds = append(kinds, "in:drop-then-typing")
+				prevAtomic := x.kbd.Atomic
+				x.kbd.Atomic = func(d []byte) bool { return true } // a drop arrives in one read
+				x.kbd.Write([]byte(vShellQuote(existing) + " "))
+				x.kbd.Atomic = prevAtomic
+				verifsim.Sleep(time.Duration(tp.Draw("c05.dropgap", 280)) * time.Millisecond)
+				b := []byte([]string{"echo hello\r", "x", "ls -l\r", "q"}[tp.Draw("c05.droptyped", 4)])
+				wantIn = append(wantIn, b...)
+				x.kbd.Write(b)
+				verifsim.Sleep(900 * time.Millisecond)
+				continue
+			}
 			if tp.Bool("c05.dir", 500) {
 				b, k := vShellChunk(tp, fo.DetectTraceLog)
 				kinds = append(kinds, "out:"+k)
